@@ -227,6 +227,7 @@ class GrammarGen:
 HOSTILE_NAMES = [
     "a", "A", "x", "X", "_x", "_x_", "__x__", "class", "def", "None", "import", "lambda", "Rule", "Pair", "Pairs", "re", "parse", "state", "pairs",
     "matched", "inner", "rule_frame", "ParserState", "RuleFrame", "main", "Parser", "name", "value", "mro", "_", "__", "RULE_X", "rule_x", "trivia", "EOI_", "eoi",
+    "SKIP", "skip", "skip_trivia", "WHITESPACE_", "whitespace", "Comment", "SOI_", "ANY_", "PUSH_", "pop",
 ]
 
 
@@ -234,6 +235,9 @@ def rename_rules(rules: dict, rnd: random.Random) -> dict:
     """Same grammar under rule names that stress the code generator (case twins, Python keywords, enum-reserved forms, module globals)."""
     own = [n for n in rules if n.startswith("r") and n[1:].isdigit()]
     pool = rnd.sample(HOSTILE_NAMES, len(own))
+    if own and "SKIP" not in pool and rnd.random() < 0.3:
+        # the optimizer's fused trivia rule is called SKIP internally; a grammar's own SKIP rule is an ordinary rule
+        pool[rnd.randrange(len(pool))] = "SKIP"
     m = dict(zip(own, pool))
 
     def ren(e):
